@@ -18,7 +18,7 @@ META = {
              "one side; distinct by structural hash; non-trivial = contains a Barrier/annotation kind or an explicit relation"),
     "assumptions": ["copies are compared position-wise along the operation listing (signature, relation type, index of the referenced operation, schedule relative to the first start)"],
     "floors": {
-        "quick": {"copies_compared": 6000, "mutation_independence_checks": 3000, "kinds_min_instances": 20, "unrolled_copies_compared": 5000, "listed_then_copied_compared": 5000, "flattened_copies_compared": 5000, "empty_placeholder_checks": 3000},
+        "quick": {"copies_compared": 6000, "mutation_independence_checks": 3000, "kinds_min_instances": 20, "unrolled_copies_compared": 5000, "listed_then_copied_compared": 5000, "flattened_copies_compared": 5000, "empty_placeholder_checks": 3000, "copies_compared_after_registry_change": 3000},
         "thorough": {"copies_compared": 60000, "mutation_independence_checks": 30000, "kinds_min_instances": 200},
     },
 }
@@ -137,6 +137,20 @@ def check_program(prog: Dict[str, Any], acc: Acc, flags=None):
         shared = {id(o) for o in ops_o} & {id(o) for o in ops_c}
         if shared:
             acc.finding("copy/shared-object", "original and copy list the same operation object (structure.copy)", case, {"n": len(shared)})
+        # ---- the copy follows the same LIVE duration settings as the original: registry durations are re-assigned after the copy
+        #      was made and both sides are read again (a copy that froze a duration at copy time diverges)
+        if (prog.get("settings") or {}).get("reg") is not None:
+            for k2, v2 in (("ra", 2), ("rb", 7.25), ("rc", 0.5)):
+                ctx.duration_registry.set_registry_at(k2, v2)
+            ops_o_r, t_o_r = listing_with_shadow(original)
+            ops_c_r, t_c_r = listing_with_shadow(copy1)
+            compare_snapshots(acc, case, "structure.copy, registry durations re-assigned afterwards", snapshot(ops_o_r, t_o_r), snapshot(ops_c_r, t_c_r))
+            acc.count("copies_compared_after_registry_change")
+            for k2, v2 in ctx.S.reg.items():
+                ctx.duration_registry.set_registry_at(k2, v2)
+            for k2 in ("ra", "rb", "rc"):
+                if k2 not in ctx.S.reg:
+                    ctx.duration_registry.set_registry_at(k2, 0.0)
         # ---- route 2: adding to an empty circuit
         built2 = bp.build(prog, bp.Ctx(prog.get("settings")))
         outer = DeclarativeCircuit()
